@@ -6,6 +6,7 @@ import (
 	"pgregory.net/rapid"
 
 	"verif/harness"
+	"verif/luagen"
 	"verif/proto"
 	"verif/reflua"
 )
@@ -18,7 +19,24 @@ type C06Case struct {
 
 func init() { register("C06", checkC06) }
 
-func genC06(t *rapid.T) C06Case { return C06Case{WS: genC05(t).WS} }
+// genC06: workspaces as in C05, but same-name initialisers, for bounds and right-hand sides are
+// generated (only go-to-definition *at* such a read is a known finding; references asked elsewhere must
+// still list those reads)
+func genC06(t *rapid.T) C06Case {
+	o := semGenOpts{MaxFiles: 3, Naming: luagen.NamesTiny, Methods: true, GlobalsRW: true}
+	if rapid.IntRange(0, 3).Draw(t, "namingMixed") == 0 {
+		o.Naming = luagen.NamesMixed
+	}
+	o.NoFuncInForBounds = gate("c05-func-in-for-bounds")
+	o.NoFuncInTargetIndex = gate("c05-func-in-target")
+	// known finding C07-F1 (the analysis registers the names of a multi-name `local` before it evaluates
+	// the later initialisers) also makes references miss such reads: local initialisers stay excluded
+	// while it is listed, except the bare `local v = v`
+	o.NoSameName = gate("c07-same-name-init")
+	o.SameNameBareInit = true
+	o.SameNameOutsideInit = true
+	return C06Case{WS: genWorkspace(t, o)}
+}
 
 // globalDefFiles: number of distinct files holding a defining assignment of the global.
 func (a *analysed) globalDefFiles(name string) int {
@@ -79,6 +97,12 @@ func checkC06(c C06Case, env *Env) *Violation {
 				continue
 			}
 			if (gate("c05-bracket-quote") && kfBracketQuote(f.Text, o.Name.Off)) || (gate("c05-glued-bracket") && kfGluedBracket(f.Text, o.Name.Off)) {
+				excludedIn(env)
+				continue
+			}
+			if gate("c05-same-name-init") && (o.InInitOfSameName || o.InForBoundsOfSameName || o.InAssignOfSameName) {
+				// known finding C05-F1 / F2: the symbol under the cursor is resolved wrongly *at* such a
+				// read; it is not used as query position (it stays an expected member of other answers)
 				excludedIn(env)
 				continue
 			}
